@@ -210,3 +210,40 @@ def swapped_argument_obligations(model, rep, fn, call, clause, rule="ARGS"):
     rep.ob(rule, fn.anchor, f"the arguments of `{_ns(call.func)}(...)` reach the parameters they are named after", not bad, "; ".join(bad), node=call, fn=fn, clause=clause,
            stmt=f"arguments of {_ns(call.func)}")
     return 1
+
+
+def consumed_after_loop_obligations(model, rep, fn, clause, rule="S25"):
+    """A collector that is filled inside a loop (`X.append(..)`, `X.add_task(..)`) and consumed after it (`X.compute()`, `return X`, `f(X)`) must be created
+    before the loop: created inside, only the items of the last iteration survive."""
+    import ast as _ast
+    from ..repo import walk_no_nested as _walk, norm_src as _ns
+    n = 0
+    seen = set()
+    body_loops = [lp for lp in _walk(fn.node) if isinstance(lp, _ast.For)]
+    for lp in body_loops:
+        inside = list(_ast.walk(lp))
+        filled = {}
+        for c in inside:
+            if isinstance(c, _ast.Call) and isinstance(c.func, _ast.Attribute) and c.func.attr in ("append", "extend", "add_task", "add_tasks", "update") and \
+                    isinstance(c.func.value, _ast.Name):
+                filled.setdefault(c.func.value.id, c)
+        if not filled:
+            continue
+        inside_ids = {id(x) for x in inside}
+        for name, call in filled.items():
+            used_after = any(isinstance(x, _ast.Name) and x.id == name and isinstance(x.ctx, _ast.Load) and id(x) not in inside_ids and
+                             getattr(x, "lineno", 0) > (lp.end_lineno or lp.lineno) for x in _ast.walk(fn.node))
+            if not used_after:
+                continue
+            created_inside = [st for st in inside if isinstance(st, (_ast.Assign, _ast.AnnAssign)) and
+                              any(isinstance(t, _ast.Name) and t.id == name for t in (st.targets if isinstance(st, _ast.Assign) else [st.target]))]
+            key = (name, id(created_inside[0]) if created_inside else id(call))
+            if key in seen:
+                continue
+            seen.add(key)
+            n += 1
+            rep.instance(rule, fn.loc(call))
+            rep.ob(rule, fn.anchor, f"the collector `{name}` that is consumed after the loop is created before the loop", not created_inside,
+                   f"`{_ns(created_inside[0])[:70]}` re-creates `{name}` in every iteration: what earlier iterations collected is dropped (only the last component / group "
+                   "contributes)" if created_inside else "", node=(created_inside[0] if created_inside else call), fn=fn, clause=clause)
+    return n
